@@ -5,8 +5,20 @@ import LentilVerif.Model.SpecArith
 namespace Lentil.Spec
 open Lentil.Units Gen
 
+/-- closed form of `samplingOf` (defined through the generated selection `Gen.samplingSel*` of `_sampling`): stops checking
+when the source changes which operand an option selects -/
+theorem samplingOf_eq (m : Sampling) (w1 w2 : List ℚ) : samplingOf m w1 w2 =
+    (match m with
+     | .min => (match minDiff w1, minDiff w2 with
+       | some a, some b => some (min a b)
+       | _, _ => none)
+     | .left => minDiff w1
+     | .right => minDiff w2
+     | .step d => some d) := by
+  cases m <;> rfl
+
 theorem samplingOf_swap (m : Sampling) (w1 w2 : List ℚ) : samplingOf m.swap w2 w1 = samplingOf m w1 w2 := by
-  cases m <;> simp only [Sampling.swap, samplingOf]
+  cases m <;> simp only [Sampling.swap, samplingOf_eq]
   cases minDiff w1 <;> cases minDiff w2 <;> simp [min_comm]
 
 theorem toWave_self (s : USpec) : toWave s.wu s = s := by
